@@ -318,13 +318,17 @@ def prop_theorems(pid):
     return names
 
 
-def lean_obligations(pid, leanchecker=False):
+def lean_obligations(pid, leanchecker=False, extra=()):
     """Build Props/<pid>.lean, audit axioms of every theorem in it, grep forbidden tokens.
     Returns dict(obligations=[{name, ok, axioms}], ok, log)."""
     mod = "LibfiberVerif.Props." + pid
+    # extra property modules that belong to this property's obligations (e.g. the TSO
+    # store-buffer theorems for C02/C14, the abstract-queue refinement for C03)
+    extra_mods = ["LibfiberVerif.Props." + e for e in extra
+                  if os.path.exists(os.path.join(LEAN, "LibfiberVerif", "Props", e + ".lean"))]
     res = {"module": mod, "obligations": [], "ok": True, "log": ""}
     with FileLock("lake"):
-        r = sh(["lake", "build", mod], cwd=LEAN, timeout=3600)
+        r = sh(["lake", "build", mod] + extra_mods, cwd=LEAN, timeout=3600)
     if r.returncode != 0:
         res["ok"] = False
         res["log"] = r.stdout[-6000:]
@@ -334,7 +338,10 @@ def lean_obligations(pid, leanchecker=False):
         res["errors"] = ["%s:%s %s" % e for e in errs][:20]
         return res
     names = prop_theorems(pid)
-    audit = "import %s\n" % mod + "".join("#print axioms %s\n" % n for n in names)
+    for e in extra:
+        if os.path.exists(os.path.join(LEAN, "LibfiberVerif", "Props", e + ".lean")):
+            names += prop_theorems(e)
+    audit = "import %s\n" % mod + "".join("import %s\n" % m for m in extra_mods) + "".join("#print axioms %s\n" % n for n in names)
     ap = os.path.join(CACHE, "audit_%s_%d.lean" % (pid, os.getpid()))
     os.makedirs(CACHE, exist_ok=True)
     open(ap, "w").write(audit)
@@ -354,10 +361,18 @@ def lean_obligations(pid, leanchecker=False):
         if not ok:
             res["ok"] = False
     hits = forbidden_tokens(mod)
+    for m in extra_mods:
+        hits += forbidden_tokens(m)
+    hits = sorted(set(hits))
     res["forbidden"] = hits
     if hits:
         res["ok"] = False
     if leanchecker and res["ok"]:
+        for m in extra_mods:
+            r = sh(["lake", "env", "leanchecker", m], cwd=LEAN, timeout=3600)
+            if r.returncode != 0:
+                res["ok"] = False
+                res["leanchecker"] = r.stdout[-2000:]
         r = sh(["lake", "env", "leanchecker", mod], cwd=LEAN, timeout=3600)
         res["leanchecker"] = "ok" if r.returncode == 0 else r.stdout[-2000:]
         if r.returncode != 0:
